@@ -59,6 +59,9 @@ func revertToManifest(kv *DB, mf *Manifest, idMap map[uint64]struct{}) error {
 			if err := os.Remove(filename); err != nil {
 				return y.Wrapf(err, "While removing table %d", id)
 			}
+			if y.VerifEnabled {
+				y.VerifEvent("fs.remove", filename)
+			}
 		}
 	}
 
@@ -519,6 +522,9 @@ func (s *levelsController) runCompactor(id int, lc *z.Closer) {
 		select {
 		// Can add a done channel or other stuff.
 		case <-ticker.C:
+			if y.VerifEnabled {
+				y.VerifGate("compactor.tick", id)
+			}
 			count++
 			// Each ticker is 50ms so 50*200=10seconds.
 			if s.kv.opt.LmaxCompaction && id == 2 && count >= 200 {
@@ -671,6 +677,10 @@ func (s *levelsController) subcompact(it y.Iterator, kr keyRange, cd compactDef,
 		if gcMax := s.kv.gcDiscardTs.Load(); gcMax > 0 && gcMax < discardTs {
 			discardTs = gcMax
 		}
+	}
+	if y.VerifEnabled {
+		y.VerifEvent("compact.sub", cd.compactorId, cd.thisLevel.level, cd.nextLevel.level,
+			hasOverlap, discardTs, kr.left, kr.right)
 	}
 
 	// Try to collect stats so that we can inform value log about GC. That would help us find which
@@ -1462,9 +1472,16 @@ func (s *levelsController) runCompactDef(id, l int, cd compactDef) (err error) {
 	}()
 	changeSet := buildChangeSet(&cd, newTables)
 
+	if y.VerifEnabled {
+		y.VerifGate("compact.beforeManifest", id, l)
+	}
 	// We write to the manifest _before_ we delete files (and after we created files)
 	if err := s.kv.manifest.addChanges(changeSet.Changes, s.kv.opt); err != nil {
 		return err
+	}
+	if y.VerifEnabled {
+		y.VerifEvent("compact.manifest", id, l, verifTableIDs(newTables), verifTableIDs(cd.top), verifTableIDs(cd.bot))
+		y.VerifGate("compact.beforeReplace", id, l)
 	}
 
 	getSizes := func(tables []*table.Table) int64 {
@@ -1488,8 +1505,14 @@ func (s *levelsController) runCompactDef(id, l int, cd compactDef) (err error) {
 	if err := nextLevel.replaceTables(cd.bot, newTables); err != nil {
 		return err
 	}
+	if y.VerifEnabled {
+		y.VerifGate("compact.beforeDelete", id, l)
+	}
 	if err := thisLevel.deleteTables(cd.top); err != nil {
 		return err
+	}
+	if y.VerifEnabled {
+		y.VerifEvent("compact.installed", id, l)
 	}
 
 	// Note: For level 0, while doCompact is running, it is possible that new tables are added.
@@ -1566,6 +1589,11 @@ func (s *levelsController) doCompact(id int, p compactionPriority) error {
 		}
 	}
 	defer s.cstatus.delete(cd) // Remove the ranges from compaction status.
+	if y.VerifEnabled {
+		y.VerifEvent("compact.picked", id, cd.thisLevel.level, cd.nextLevel.level,
+			verifTableIDs(cd.top), verifTableIDs(cd.bot), cd.thisRange.inf)
+		defer y.VerifEvent("compact.done", id, cd.thisLevel.level)
+	}
 
 	span.SetAttributes(attribute.String("Compaction", fmt.Sprintf("%+v", cd)))
 	if err := s.runCompactDef(id, l, cd); err != nil {
@@ -1600,6 +1628,9 @@ func (s *levelsController) addLevel0Table(t *table.Table) error {
 
 	for !s.levels[0].tryAddLevel0Table(t) {
 		// Before we uninstall, we need to make sure that level 0 is healthy.
+		if y.VerifEnabled {
+			y.VerifEvent("l0.stall", t.ID())
+		}
 		timeStart := time.Now()
 		for s.levels[0].numTables() >= s.kv.opt.NumLevelZeroTablesStall {
 			time.Sleep(10 * time.Millisecond)
